@@ -11,12 +11,16 @@ from vt import detsched as ds, aosim
 PERIODS = [0.01, 0.05, 0.1, 1.0, 2.5]
 
 
-def gen_sources(rng, nmax=4, names=('TICK_A', 'TICK_B', 'TICK_C'), times_max=6, allow_infinite=True):
+def gen_sources(rng, nmax=4, names=('TICK_A', 'TICK_B', 'TICK_C'), times_max=6, allow_infinite=True, zero_period=False):
   out = []
   for i in range(rng.randint(1, nmax)):
     out.append({'i': i, 'sig': rng.choice(names), 'kind': rng.choice(['fifo', 'lifo']), 'period': rng.choice(PERIODS),
                 'times': rng.randint(0 if allow_infinite else 1, times_max), 'deferred': rng.choice([True, False, None]),
                 'start_delay': rng.choice([0.0, 0.0, 0.003, 0.2])})
+    if zero_period and rng.random() < 0.12:
+      # an unusual but legal input: period 0 (all postings at the instant of the call); finite sources only
+      out[-1]['period'] = rng.choice([0, 0.0])
+      out[-1]['times'] = max(1, out[-1]['times'])
   return out
 
 
